@@ -176,8 +176,8 @@ class C14(Prop):
                     return a is b
                 if isinstance(a, tuple):
                     return all(same(x, y) for x, y in zip(a, b))
-                return np.array_equal(a, b)
-            if not all(np.array_equal(a, b) for a, b in zip(q1, q2)):
+                return np.array_equal(a, b, equal_nan=True)
+            if not all(np.array_equal(a, b, equal_nan=True) for a, b in zip(q1, q2)):
                 problems.append("repeating a read-only query after step %r gave a different answer" % (o,))
             if not all(same(a, b) for a, b in zip(snap, snap2)):
                 problems.append("a read-only query changed the registered values after step %r" % (o,))
@@ -220,7 +220,7 @@ class C14(Prop):
                         continue
                 return "%s raises %s on the object with history but not on a freshly registered twin" % (name, type(ea).__name__)
             b = np.asarray(f(tw), dtype=float)
-            if a.shape != b.shape or not np.array_equal(a, b):
+            if a.shape != b.shape or not np.array_equal(a, b, equal_nan=True):
                 return "%s differs between the object with history and a freshly registered twin (max |diff| %.3g)" % (name, float(np.max(np.abs(a - b))) if a.shape == b.shape else -1)
         return None
 
